@@ -40,11 +40,11 @@ def hierarchy_family(shape, mcfg, super_style, ctor_style, with_dtor):
         has_sub_override = any(parents[d] == c and mcfg.get(d, "inherit") != "inherit" for d in classes) or any(
             parents.get(parents.get(d)) == c and mcfg.get(d, "inherit") != "inherit" and mcfg.get(parents[d], "inherit") == "inherit" for d in classes if parents.get(d))
         if c == "A":
-            body += " public virtual function m() -> string { return \"A.m\"; } public function n() -> string { return \"A.n:\" + this.m(); }"
+            body += " public function sfx() -> string { return \"\"; } public virtual function m() -> string { return \"A.m\" + this.sfx(); } public function n() -> string { return \"A.n:\" + this.m(); }"
         elif cfg == "override":
             body += " public virtual override function m() -> string { return \"%s.m\"; }" % c
         elif cfg == "override-super":
-            body += " public virtual override function m() -> string { return \"%s.m>\" + super.m(); }" % c
+            body += " public virtual override function m() -> string { return \"%s.m>\" + super.m() + this.sfx(); }" % c
         if with_dtor == "default-mid" and c == "B":
             body += " public destructor() -> void = default;"          # the documented defaulted form: runs nothing
         elif with_dtor:
@@ -199,6 +199,8 @@ def overload_programs(tier):
                 if aname == "A-holding-B" and r not in ("none", "ambiguous"):
                     body2 = "%s ab = new A(); ab = new B(); echo(o.f(ab));" % decl
                     progs.append(("overload-reassigned:%s:%s" % ("+".join(ov), aname), base + cls + "function main() -> void { %s }\n" % body2, exp))
+                    for how, stmt in (("nulled", "ab = null; ab = new B();"), ("destroyed", "destroy ab; ab = new B();")):
+                        progs.append(("overload-%s:%s:%s" % (how, "+".join(ov), aname), base + cls + "function main() -> void { %s %s echo(o.f(ab)); }\n" % (decl, stmt), exp))
                     # through a parameter of static type A
                     fn = "function via(O o, A x) -> string { return o.f(x); }\n"
                     progs.append(("overload-via-param:%s" % "+".join(ov), base + cls + fn + "function main() -> void { O o = new O(); echo(via(o, new B())); }\n", exp))
@@ -288,7 +290,23 @@ def destructor_programs():
         ("dtor:end-of-main", "P a = new P(8); echo(\"last\");", ["last", "~P8"]),
         ("dtor:loop", "for (int i = 0; i < 2; i = i + 1) { P a = new P(i); echo(\"body\"); } echo(\"after\");", ["body", "~P0", "body", "~P1", "after"]),
     ]
-    return [(n, cls + "function main() -> void { %s }\n" % b, ("ok", e)) for n, b, e in cases]
+    out = [(n, cls + "function main() -> void { %s }\n" % b, ("ok", e)) for n, b, e in cases]
+    cls3 = ("class R { public int id; public constructor(int i) -> R { this.id = i; } public function twice() -> int { return this.id * 2; } "
+            "public destructor() -> void { echo(\"~R a\" + this.id); echo(\"~R b\" + this.twice()); echo(\"~R c\" + this.id); } }\n"
+            "function viaif(int k) -> int { R d = new R(k); if (k > 0) { return k * 100; } return 0; }\n"
+            "function viafor(int k) -> int { R d = new R(k); for (int i = 0; i < 3; i = i + 1) { if (i == 1) { return i + k; } } return 0; }\n"
+            "function viawhile(int k) -> int { R d = new R(k); int j = 0; while (j < 3) { j = j + 1; if (j == 2) { return j * k; } } return 0; }\n"
+            "function keepone(int k) -> R { R d = new R(k); R keep = new R(k + 1); return keep; }\n"
+            "function plain(int k) -> void { R d = new R(k); echo(\"in\"); }\n")
+    cases3 = [
+        ("dtor:frame-end-after-return-in-if", "echo(viaif(1)); echo(\"end\");", ["~R a1", "~R b2", "~R c1", "100", "end"]),
+        ("dtor:frame-end-after-return-in-for", "echo(viafor(5)); echo(\"end\");", ["~R a5", "~R b10", "~R c5", "6", "end"]),
+        ("dtor:frame-end-after-return-in-while", "echo(viawhile(3)); echo(\"end\");", ["~R a3", "~R b6", "~R c3", "6", "end"]),
+        ("dtor:frame-end-returning-object", "R r = keepone(5); echo(r.id); echo(\"end\");", ["~R a5", "~R b10", "~R c5", "6", "end", "~R a6", "~R b12", "~R c6"]),
+        ("dtor:frame-end-void", "plain(4); echo(\"end\");", ["in", "~R a4", "~R b8", "~R c4", "end"]),
+    ]
+    out += [(n, cls3 + "function main() -> void { %s }\n" % b, ("ok", e)) for n, b, e in cases3]
+    return out
 
 
 def _one(item):
